@@ -1,6 +1,7 @@
 """C03 bounded stand-in: after every refinement step of the REAL dimension-wise strategy the component grids form a valid
 nested combination (adversarial refinement histories through the public ErrorCalculator API)."""
 import itertools
+import numpy as np
 
 from bounded import _dimwise_common as C
 from bounded.api import close, quiet
@@ -123,6 +124,24 @@ class Obs(C.Observer):
                 bad_int.append((p, float(v[0]), fv))
         ctx.check("B.combi.interpolation", not bad_int, C.SITE_CALL, "interp-" + tag,
                   "step %d lmax %s: %d of %d points differ, e.g. (point, combi, f) %s" % (step, list(sa.lmax), len(bad_int), len(pts), bad_int[:3]))
+        # the tensor-grid entry point of the same interpolant (interpolate_grid: per-dimension coordinate lists), asked after EVERY step on the same object: it must
+        # agree with __call__ at the product points, which contain every point of the combined grid (missed seed C03_a: point stripes cached per level vector)
+        d_ = len(pts[0])
+        coords = [sorted(set(p[i] for p in pts)) for i in range(d_)]
+        while int(np.prod([len(c) for c in coords])) > 2500:
+            k_ = int(np.argmax([len(c) for c in coords]))
+            coords[k_] = coords[k_][::2]
+        prod = list(itertools.product(*coords))
+        gvals = None
+        with ctx.guard("B.run.completes", C.SITE_CALL, "raises-interpolate-grid-" + tag):
+            with quiet():
+                gvals = np.asarray(sa.interpolate_grid([np.array(c) for c in coords]), dtype=float)
+                cvals = np.asarray(sa(prod), dtype=float)
+        if gvals is not None:
+            okg = gvals.shape == cvals.shape and bool(np.all(np.abs(gvals - cvals) <= 1e-9 * (1 + np.abs(cvals))))
+            ctx.check("B.combi.interpolation", okg, C.SITE_CALL, "interp-grid-" + tag,
+                      "step %d lmax %s: interpolate_grid differs from __call__ at the product points (shapes %s / %s, max difference %s)"
+                      % (step, list(sa.lmax), gvals.shape, cvals.shape, float(np.max(np.abs(gvals - cvals))) if gvals.shape == cvals.shape else None))
 
 
 def run_case(ctx, case):
